@@ -11,6 +11,14 @@ use simworld::syncnet::{NetCfg, NetOutcome, Topology, run_net};
 use simworld::syncwire::Wire;
 
 pub fn draw_cfg(faulty: bool) -> NetCfg {
+    // One run in 100: three peers in a line, the first holds a log of 1100-1300 operations. The
+    // middle peer receives them over one session while its other session (slower link) is still
+    // in its sync phase, so more operations are forwarded than that session's live-mode channel
+    // holds: forwarding must wait (back-pressure), not drop.
+    if !faulty && ctx::chance("net.bulk", 1, 100) {
+        ctx::fault("bulk_volume(>1028 operations forwarded to one session)");
+        return NetCfg { peers: 3, topology: Topology::Line, initial_ops_max: 2, publishes: ctx::range("net.publishes", 1, 3), latency: true, cut_link: false, close_at_end: true, bulk_peer: Some(0) };
+    }
     let peers = ctx::range("net.peers", 2, 5);
     let topology = *ctx::pick("net.topology", &[Topology::Line, Topology::Star, Topology::Ring, Topology::Mesh]);
     NetCfg {
@@ -21,6 +29,7 @@ pub fn draw_cfg(faulty: bool) -> NetCfg {
         latency: faulty || ctx::chance("net.latency", 1, 2),
         cut_link: faulty && ctx::chance("net.cut", 1, 2),
         close_at_end: true,
+        bulk_peer: None,
     }
 }
 
@@ -97,7 +106,7 @@ impl Property for C23Prop {
         }
     }
     fn rule(&self) -> &'static str {
-        "one run = 2-5 peers in a line / star / ring / mesh, each with a real TopicSyncManager, ManagerEventStream consumer and live-mode TopicLogSync sessions to its neighbours over SimDuplex; 1-8 operations are published at seeded peers and instants while copies travel over several paths under seeded latencies and task schedules, optionally one link is cut; non-trivial = at least 3 peers or a fault; distinct = distinct trace fingerprint (topology, transcripts of all sessions, consumer views)"
+        "one run = 2-5 peers in a line / star / ring / mesh, each with a real TopicSyncManager, ManagerEventStream consumer and live-mode TopicLogSync sessions to its neighbours over SimDuplex; 1-8 operations are published at seeded peers and instants while copies travel over several paths under seeded latencies and task schedules, optionally one link is cut (one fault-free run in 100: a line of three peers whose first peer holds a log of 1100-1300 operations); non-trivial = at least 3 peers or a fault; distinct = distinct trace fingerprint (topology, transcripts of all sessions, consumer views)"
     }
     fn components_real(&self) -> Vec<&'static str> {
         vec!["p2panda_sync::manager::TopicSyncManager::{session, session_handle, subscribe}", "p2panda_sync::manager::ManagerEventStream (forwarding + manager dedup)", "p2panda_sync::protocols::TopicLogSync incl. live mode", "p2panda_sync::dedup::DeduplicationBuffer", "p2panda_stream::ingest::ingest_operation (consumer)"]
@@ -144,6 +153,13 @@ pub fn check_c23(out: &NetOutcome) {
         }
         if sent_at.len() > 1 {
             ctx::probe("forwarded_to_other_session");
+        }
+        {
+            use simworld::syncwire::ToWire;
+            let lives = link.transcript.iter().filter(|m| matches!(m.to_wire(), Wire::Live { .. })).count();
+            if lives > 1028 {
+                ctx::probe("more_live_forwards_than_channel_slots");
+            }
         }
         // What this peer received over the same connection (the paired session's transcript, at
         // the moments it was delivered to us).
